@@ -10,6 +10,7 @@ import (
 type WriteRec struct {
 	Heap string
 	Ref  *Term // nil = whole heap
+	PC   *Term
 }
 
 type State struct {
@@ -82,7 +83,7 @@ func (c *Ctx) setHeap(s *State, name string, t *Term, ref *Term) {
 	s.heaps[name] = t
 	s.hsorts[name] = t.Sort
 	if s.wlog != nil {
-		*s.wlog = append(*s.wlog, WriteRec{name, ref})
+		*s.wlog = append(*s.wlog, WriteRec{name, ref, s.pc})
 	}
 }
 
@@ -149,7 +150,12 @@ func (c *Ctx) wfLoaded(s *State, comps []Comp, ts []*Term) {
 			continue
 		}
 		c.wfSeen[key] = true
-		c.assume(s.pc, bvcmp("bvult", ts[i], c.alloc(s)))
+		if ts[i].MaxSym <= c.entrySym {
+			// built from entry-state symbols only: the cell held this reference at function entry
+			c.assume(TTrue, bvcmp("bvult", ts[i], c.heap0(s, allocName, SRef)))
+		} else {
+			c.assume(s.pc, bvcmp("bvult", ts[i], c.alloc(s)))
+		}
 	}
 	for i := 0; i+3 < len(comps); i++ {
 		if !strings.HasSuffix(comps[i].Path, ".ref") || !strings.HasSuffix(comps[i+3].Path, ".cap") {
